@@ -10,6 +10,7 @@ structure FilePost (e : Env) (lx : LexEnv) (X : Array PTok) (rarms : List Arm) (
   val : ∃ info ch cm, v = .block e.known.tyA2lFile info [] ch cm ∧ info.startOff = 0 ∧ info.endOff = 0
   ord : InOrder e v items
   canon : OT.posAll e.code items → Canon e v items
+  sibc : ∃ items', OT.SibPL e.code items items' ∧ Canon e v items'
   wf : OT.wfL (mkC e lx X ver) rarms false items
   mult : MultOk true rarms items
   head : HeadOk (mkC e lx X ver) items
@@ -125,7 +126,7 @@ theorem parseFile_post (htab : tableOk e.table e.known = true) (hshape : shapeOk
         have hits : its = [] := nf.nil hT.symm
         have heo : cinfo.endOff = 0 := nf.eoff hB.symm
         -- the rest of the loop
-        have hinv0 := (LInv.init e rarms sA.seqId).childStep (q' := s3c.seqId) harm nf.canon nf.ord
+        have hinv0 := (LInv.init e rarms sA.seqId).childStep (q' := s3c.seqId) harm nf.canon nf.sibc nf.ord
           (by have := nf.uidlt; rw [q2, oc.seq] at this; exact this) nf.uidle
         simp only [List.nil_append] at hinv0
         have hnr0 : NR rarms [OT.node i (symText e.symbols arm.tag) arm.block arm.ty cinfo.startOff cinfo.endOff
@@ -138,7 +139,7 @@ theorem parseFile_post (htab : tableOk e.table e.known = true) (hshape : shapeOk
         rw [hverA] at hwf
         subst hcm
         refine ⟨_ :: xs, ver, ⟨⟨_, children, _, rfl, rfl, rfl⟩, inv'.toInOrder hroot.root _ rfl _,
-          fun hpa => inv'.toCanon hroot.root hpa _ _ (by simp), ⟨hwf, res'.wf⟩, multOk_of_check inv' nr' hmult, ?_,
+          fun hpa => inv'.toCanon hroot.root hpa _ _ (by simp), inv'.toSibCanon hroot.root _ _ (by simp), ⟨hwf, res'.wf⟩, multOk_of_check inv' nr' hmult, ?_,
           ⟨hlexN, res'.lexv⟩, ⟨hendN, res'.eokL⟩,
           (by simp only [OT.noBumpL]
               exact ⟨(fun h => by cases h), nf.nb, res'.nb (fun h => by cases h) false (fun h => by cases h)⟩),
